@@ -163,13 +163,16 @@ fn parse_response(raw: &[u8]) -> std::io::Result<HttpResponse> {
         .next()
         .ok_or_else(|| invalid("response has no status line"))?;
     let status_line = String::from_utf8_lossy(status_line);
+    if !status_line.starts_with("HTTP/") {
+        return Err(invalid(&format!("not an HTTP status line: {status_line:?}")));
+    }
     let status = status_line
         .split_whitespace()
         .nth(1)
         .and_then(|s| s.parse::<u16>().ok())
         .ok_or_else(|| invalid(&format!("unparseable status line: {status_line:?}")))?;
 
-    let headers = head
+    let headers: Vec<(String, String)> = head
         .split(|b| *b == b'\n')
         .skip(1)
         .filter_map(|line| {
@@ -178,6 +181,21 @@ fn parse_response(raw: &[u8]) -> std::io::Result<HttpResponse> {
             Some((k.trim().to_ascii_lowercase(), v.trim().to_string()))
         })
         .collect();
+
+    // The peer closed before sending the body it declared: a truncated
+    // response is an error, never a shorter answer.
+    for (k, v) in &headers {
+        if k == "content-length" {
+            if let Ok(n) = v.parse::<u64>() {
+                if (body.len() as u64) < n {
+                    return Err(std::io::Error::new(
+                        std::io::ErrorKind::UnexpectedEof,
+                        format!("body has {} bytes, Content-Length declared {n}", body.len()),
+                    ));
+                }
+            }
+        }
+    }
 
     Ok(HttpResponse {
         status,
